@@ -129,8 +129,8 @@ type REvent struct {
 	Arg    ast.Expr
 	// Inlined: the callee is interpreted in this context; the argument is judged there.
 	Inlined bool
-	S      S
-	ents   map[ast.Expr]string
+	S       S
+	ents    map[ast.Expr]string
 }
 
 // Ent names the entity of an expression in the event's state.
